@@ -1,4 +1,5 @@
 import PicoProofs.EndToEnd
+import PicoProofs.GoTieApi
 import PicoProofs.Tie
 /-
 C03 — Unmarshal(Marshal(m)) reproduces m for every message.
@@ -19,6 +20,15 @@ theorem C03_roundtrip (S : Schema) (hS : S.ok) (id : Nat) (v : Val)
     (hwt : wtMsg S true id v = true) (hsz : (Spec.specEnc S id v).length < 2 ^ 64) :
     ∃ d, unmarshal S id (marshal S id v) (zeroMsg S id) = .ok (d, v) ∧ d.err = none :=
   unmarshal_marshal S hS id v hwt hsz
+
+/-- the same with the decoder side run through the Go source (`GoTie.srcUnmarshal` = the translated
+message.go `Unmarshal` + decoder.go on the generated `Decode`): it returns the original value and a
+nil error -/
+theorem C03_source_roundtrip (S : Schema) (hS : S.ok) (id : Nat) (v : Val)
+    (hwt : wtMsg S true id v = true) (hsz : (Spec.specEnc S id v).length < 2 ^ 64) :
+    GoTie.srcUnmarshal S id (marshal S id v) (zeroMsg S id) = .ok (v, none) := by
+  obtain ⟨d, hr, he⟩ := unmarshal_marshal S hS id v hwt hsz
+  rw [GoTie.srcUnmarshal_of S id _ _ d v hr, he]
 
 /-- the per-kind kernel of the proof: decode ∘ encode is the identity on every bit pattern -/
 theorem C03_scalar_bits (rep : Bool) (var : Variant) (k : Scalar) (n : Nat) (h : n < 2 ^ k.width) :
